@@ -127,6 +127,22 @@ def base_and_variants(args):
     n = 1
     for v in variants:
         kind = v[0]
+        if kind == "repeat":
+            # the SAME command line a second time (same output path, so that even the command-line header is equal): every file is
+            # compared byte by byte, the gzipped ones included (their headers carry a time stamp unless the writer suppresses it)
+            import time
+            raw0 = raw_tree(os.path.join(base_out, "OUT"))
+            shutil.rmtree(base_out, ignore_errors=True)
+            time.sleep(1.1)
+            rc = run.run_isoquant(argv_for(cfg, paths, base_out), paths["home"], os.path.join(d, "v.txt"), pre_hook=cfg_hook(cfg))
+            n += 1
+            raw1 = raw_tree(os.path.join(base_out, "OUT")) if rc == 0 else {}
+            df = [(k, "raw bytes differ between two runs of the same command line (first difference at byte %d)" %
+                   next((i for i, (a, b) in enumerate(zip(raw0.get(k, b""), raw1.get(k, b""))) if a != b), min(len(raw0.get(k, b"")), len(raw1.get(k, b"")))))
+                  for k in sorted(set(raw0) | set(raw1)) if raw0.get(k) != raw1.get(k)]
+            if df:
+                res.append((v, df))
+            continue
         out = os.path.join(d, "v")
         shutil.rmtree(out, ignore_errors=True)
         extra = []
@@ -164,6 +180,16 @@ def base_and_variants(args):
             res.append((v, df))
     shutil.rmtree(d, ignore_errors=True)
     return res, n
+
+
+def raw_tree(root):
+    out = {}
+    for dp, dn, fn in os.walk(root):
+        if "aux" in os.path.relpath(dp, root).split(os.sep):
+            continue
+        for f in fn:
+            out[os.path.normpath(os.path.join(os.path.relpath(dp, root), f))] = open(os.path.join(dp, f), "rb").read()
+    return out
 
 
 def plain_tree(args):
@@ -270,7 +296,7 @@ def explore_config(ctx, cfg, n_chr, quick, tot):
         variants = [v for v in variants if len(v[1]) != len(v[2]) or len(v[1]) in (1, n_chr)]
         modes = modes[:1] + modes[4:]
         gorders = gorders[:2]
-    allv = variants + modes + gorders
+    allv = variants + modes + gorders + [("repeat",)]
     ctx.rng.shuffle(allv)
     nruns = 0
     for res, n in core.pmap(base_and_variants, [(n_chr, c, ctx.scratch, i, cfg) for i, c in enumerate(core.chunks(allv, core.NCPU))]):
